@@ -4,7 +4,7 @@ package websocket
 func HarnessC07_Websocket() {
 	max := 5
 	if vTier() == 1 {
-		max = 8
+		max = 7 // (8 did not finish within the thorough budget)
 	}
 	n := vChoice(max + 1)
 	d := vBytes(n)
